@@ -29,6 +29,8 @@ type WLSpec struct {
 	Seed  int64    `json:"seed"`
 	Steps []WLStep `json:"steps"`
 	Name  string   `json:"name"`
+	Base  int      `json:"base,omitempty"` // index of the first step (a workload continued by a second process)
+	Seq   int      `json:"seq,omitempty"`  // message counter to continue from
 }
 
 type WLBegin struct {
@@ -87,7 +89,9 @@ func crashWorkload(args []string) int {
 	seq := 0
 	t := baseTime + int64(r.Intn(100))
 	keys := [][]byte{[]byte("a"), []byte("b"), nil, []byte("cc")}
-	for i, st := range spec.Steps {
+	seq = spec.Seq
+	for si, st := range spec.Steps {
+		i := si + spec.Base
 		bm := WLBegin{I: i, Kind: st.Kind, Target: st.Target, Opts: st.Opts, V: st.V}
 		em := WLEnd{I: i}
 		switch st.Kind {
@@ -110,6 +114,21 @@ func crashWorkload(args []string) int {
 					em.Err = "open: " + err.Error()
 				} else {
 					em.Next, _ = l.NextOffset()
+					if spec.Base > 0 && len(live) == 0 {
+						// a continued workload: learn what is live (only used to pick delete targets)
+						next = em.Next
+						cur := klevdb.OffsetOldest
+						for {
+							nx, ms, cerr := l.Consume(cur, 32)
+							if cerr != nil || len(ms) == 0 {
+								break
+							}
+							for _, m := range ms {
+								live[m.Offset] = true
+							}
+							cur = nx
+						}
+					}
 				}
 			}
 			mark("E", em)
@@ -162,6 +181,11 @@ func crashWorkload(args []string) int {
 			}
 			em.Next, _ = l.NextOffset()
 			mark("E", em)
+		case "die":
+			// the process ends here without Sync or Close (its file descriptors are simply dropped)
+			mark("B", bm)
+			mf.Close()
+			os.Exit(0)
 		case "sync":
 			mark("B", bm)
 			nx, err := l.Sync()
